@@ -5,6 +5,10 @@ import (
 	"encoding/binary"
 	"encoding/hex"
 	"fmt"
+	"github.com/cossacklabs/acra/acrablock"
+	"github.com/cossacklabs/acra/acrastruct"
+	"github.com/cossacklabs/acra/crypto"
+	"github.com/cossacklabs/themis/gothemis/keys"
 	"strconv"
 	"strings"
 	"testing"
@@ -572,7 +576,7 @@ func (C09) Explore(x *kernel.Explorer, seed uint64) {
 	for i := 0; i < 4 && !x.Expired(); i++ {
 		plan := &kernel.Plan{Prop: "C09", Seed: kernel.Mix(seed, uint64(i)), Swarm: map[string]int64{"idlenth": int64([]int{0, 0, 0, 2, 3}[r.Intn(5)]), "pgreexec": int64(r.Intn(2)), "fetch": int64([]int{0, 0, 1, 2}[r.Intn(4)]),
 			"chunk": int64(r.Intn(4)), "env": int64(r.Intn(2)), "typed": int64(r.Intn(2)), "params": int64(r.Intn(2)), "mysql": int64(r.Intn(3) / 2), "depeof": int64(r.Intn(2)), "rawmy": int64(r.Intn(2)), "reexec": int64(r.Intn(2)), "wyield": int64(r.Intn(2)),
-			"join": int64(r.Intn(4) / 3), "rotfail": int64(r.Intn(3)/2) * int64(1+r.Intn(8))}}
+			"join": int64(r.Intn(4) / 3), "preprot": int64(r.Intn(2)), "rotfail": int64(r.Intn(3)/2) * int64(1+r.Intn(8))}}
 		n := 2 + r.Intn(7)
 		for j := 0; j < n; j++ {
 			plan.Ops = append(plan.Ops, kernel.Op{ID: j + 1, Kind: "row", A: []int64{int64(r.Intn(6))}})
@@ -637,6 +641,41 @@ func (C09) Run(t *testing.T, plan *kernel.Plan, keepLog bool) *kernel.Result {
 				continue
 			}
 			script = append(script, insertStmt(names, len(values), []string{v}, []colKind{col}, plan.Sw("params") == 1))
+		}
+		if plan.Sw("preprot") == 1 && plan.Sw("typed") == 0 && !w.Res.Cut {
+			// a value the application has protected itself (library call) is written into the searchable column:
+			// it is stored as it is, with the index of its plaintext, and is found and read like any other row
+			plainV := c09Values[0]
+			var envelope []byte
+			var perr error
+			if col.Envelope == "acrastruct" {
+				var pub *keys.PublicKey
+				if pub, perr = pw.KS.KS.GetClientIDEncryptionPublicKey([]byte(owner)); perr == nil {
+					var as []byte
+					if as, perr = acrastruct.CreateAcrastruct([]byte(plainV), pub, nil); perr == nil {
+						envelope, perr = crypto.SerializeEncryptedData(as, crypto.AcraStructEnvelopeID)
+					}
+				}
+			} else {
+				var key []byte
+				if key, perr = pw.KS.KS.GetClientIDSymmetricKey([]byte(owner)); perr == nil {
+					var blk []byte
+					if blk, perr = acrablock.CreateAcraBlock([]byte(plainV), key, nil); perr == nil {
+						envelope, perr = crypto.SerializeEncryptedData(blk, crypto.AcraBlockEnvelopeID)
+					}
+				}
+			}
+			if perr != nil {
+				w.Violate("C09", "world-builds", site, perr.Error())
+				return
+			}
+			values = append(values, plainV)
+			lit := "'\\x" + hex.EncodeToString(envelope) + "'"
+			if mysql {
+				lit = "X'" + hex.EncodeToString(envelope) + "'"
+			}
+			script = append(script, Stmt{SQL: fmt.Sprintf("INSERT INTO t1 (id, plain, c1) VALUES (%d, 'p', %s)", len(values), lit)})
+			w.Probe("application-protected-value-in-searchable-column")
 		}
 		type search struct {
 			val   string
